@@ -149,6 +149,19 @@ Proof.
   split; vm_compute; reflexivity.
 Qed.
 
+(* A flushed converter is NOT a fresh one: _flush empties the buffer but keeps _bset/_last, so feeding a
+   flushed converter again differs from a fresh converter.  `bytes_to_unicode` (conversion at once) is
+   therefore modelled - and must be implemented - with a fresh converter per call: it is a function of its
+   arguments only, whatever was converted before through the same Codepage (the harness runs call
+   histories on one real Codepage object against this stateless model). *)
+Example C41_flush_keeps_box_state :
+  let p := params_of (mk_conv_light "936" true [] false false) in
+  let st := snd (mark p true init_state [196; 196; 196] true) in
+  s_buf st = [] /\ s_bset st = 0 /\ s_last st = Some 196
+  /\ fst (mark p true st [196; 196] true) = [[196]; [196]]
+  /\ fst (mark p true init_state [196; 196] true) = [[196; 196]].
+Proof. cbv zeta. repeat split; vm_compute; reflexivity. Qed.
+
 Example C41_nonvacuous_sbcs :
   let t := get_codepage "437" in
   In t all_codepages /\ t_dbcs t = false /\ In ([225], [223]) (t_entries t)
